@@ -2,7 +2,8 @@
 
 TLC design level : Timing.tla (the Waiter as coded: cached clock, one clock reading per Wait, timer armed
                    from the runtime's own reading, IsSlowDown, the decide/shoot/discard steps of instance.Run,
-                   one or two instances on a shared schedule, responses 0/5/25/35 ticks, Tick anywhere within a
+                   one or two instances on a shared schedule (the second started later by the startup schedule, or
+                   never when the schedule finishes first), responses 0/5/25/35 ticks, Tick anywhere within a
                    budget of "lazy" ticks), exhaustive for the prompt machine and for the descheduled one,
                    liveness under weak fairness, + five negative controls that must produce counterexamples
                    (stale cached clock = the shipped defect, wrong threshold, skipped sleep, overdue not reset, strong iff under
@@ -136,10 +137,11 @@ def scripts_from_tlc(n_walks, n_pick, first_id=1, cfg="Timing_sim.cfg"):
         cases.append({"id": cid, "kind": "script", "key": key, "ninst": w["ninst"],
                       "toks": [e["tok"] for e in h], "resp": [e["r"] for e in h], "exp": [e["d"] for e in h],
                       "pa": [e["a"] - e["tok"] for e in h], "pb": [e["b"] - e["tok"] for e in h], "fin": w["fin"],
-                      "lz": [e["lz"] for e in h],
+                      "lz": [e["lz"] for e in h], "starts": sorted(w["startAt"][:w["ninst"]]),
                       "desc": "script tokens=%s resp=%s%s instances=%d discard_overflow=%s" % (
                           [e["tok"] for e in h], [e["r"] for e in h],
-                          (" desched_after_next=%s" % [e["lz"] for e in h]) if lazy else "", w["ninst"], key)})
+                          (" desched_after_next=%s" % [e["lz"] for e in h]) if lazy else "", w["ninst"], key) +
+                              (" instance_starts=%s" % w["startAt"][:w["ninst"]] if max(w["startAt"]) > 0 else "")})
     return cases, len(walks)
 
 
@@ -235,7 +237,7 @@ def run(tier, v):
     th.start()
     try:
         d = vlib.scratch("c04-timing-")
-        n_scripts, n_gap, n_lazy, n_random, n_walks, n_confs = (140, 60, 100, 160, 3000, 60) if thorough else (20, 8, 10, 28, 500, 12)
+        n_scripts, n_gap, n_lazy, n_random, n_walks, n_confs = (140, 60, 100, 160, 3000, 60) if thorough else (20, 8, 10, 28, 800, 12)
         # script families (generated in parallel; ids are disjoint ranges):
         #   sim     prompt machine, 8 tokens            sim12  (thorough) 12 tokens, up to 11 s
         #   simgap  bursts separated by a pause longer than the window: a waiter that was behind has to sleep again
